@@ -1,6 +1,6 @@
 From Coq Require Import ZArith.
-From RsdnsModel Require Import Base Client.
-From RsdnsModel.Proofs Require Import ClientProofs.
+From RsdnsModel Require Import Base Client Timed.
+From RsdnsModel.Proofs Require Import ClientProofs TimedProofs TimedGeneral.
 From RsdnsModel.Properties Require Import C14.
 Open Scope N_scope.
 Check (C14_segmentation_independent : forall std segs segs' buf_len,
@@ -14,4 +14,7 @@ Check (C14_framing : forall std segs buf_len,
   | Err _ => (length s < 2)%nat \/ (length s < 2 + N.to_nat (be_val (firstn 2 s) 0))%nat
   | _ => False
   end).
-Print Assumptions C14_segmentation_independent. Print Assumptions C14_framing.
+Check (C14_framing_over_time : forall std smol q lifetime qt jit proc buf strategy arrs srv sends ev body t,
+  client_query_timed std smol q lifetime qt jit proc buf strategy arrs srv = (sends, ev, Ok body, t) ->
+  In EvTcpExchange ev -> framed buf (map snd (tp_bytes srv)) body).
+Print Assumptions C14_segmentation_independent. Print Assumptions C14_framing. Print Assumptions C14_framing_over_time.
